@@ -107,6 +107,9 @@ fn main() {
                 let r = sym::run_scripts(id, paths::DISTANCE_NAME, &paths::distance_scripts(thorough));
                 eprintln!("  {} : states={} transitions={} {:.1}s {}", r.family, r.stats.states, r.stats.transitions, r.wall_s, r.note);
                 ev.families.push(r);
+                let r = sym::run_scripts(id, paths::DRAGBACK_NAME, &paths::dragback_scripts(thorough));
+                eprintln!("  {} : states={} transitions={} {:.1}s {}", r.family, r.stats.states, r.stats.transitions, r.wall_s, r.note);
+                ev.families.push(r);
             }
             // Families closed under the symmetries are run with one primary per orbit (exact reduction, see sym::run_family);
             // the seeds are used as written (their images are the lock-step partners).  Quick: reduced kinds for F2,
